@@ -203,6 +203,93 @@ def priority_mid_case(r, stats):
     return header(plen, files, "0" * n, r.randrange(1, 1 << 16)) + " | " + " ".join(ops)
 
 
+def reissue_case(r, stats):
+    """The shape of Properties.v reissued_after_choke_timeout / reissued_after_disconnect: few wanted pieces, so that ONE connection
+    p holds every outstanding request while another connection q (announced the pieces, unchoking, interested and queued) has
+    nothing to be asked for; then p's requests are voided by CHOKE + the 6 s delay_remove_choked timer, or by a disconnect, and
+    the blocks must be asked for at q (RequestList::choked / clear -> Block::release -> Delegator::delegate at q)."""
+    plen, files = r.choice([(32768, [30000, 30000, 30000, 30000, 30000, 500000]), (16384, [16384, 16384, 16384, 16384, 327680]),
+                            (65536, [65536 * 2, 70000, 65536 * 6]), (49152, [49152 * 2 + 5000, 49152 * 10])])
+    n = npieces(plen, files)
+    nf = len(files)
+    keep = r.randrange(nf - 1)                    # one small file stays wanted
+    ops = ["W:%d:0" % f for f in range(nf) if f != keep]
+    npeers = r.choice([2, 2, 3])
+    for p in range(npeers):
+        ops.append("J:%d:%s" % (p, "1" * n if r.random() < 0.7 else rand_bits(r, n, "rand")))
+    order = list(range(npeers))
+    r.shuffle(order)
+    ops += ["U:%d" % p for p in order]
+    ops.append("A:%d" % r.choice([1, 31]))
+    for _ in range(r.choice([0, 0, 1, 2])):
+        ops.append("P:%d:0" % r.randrange(npeers))
+    for rnd in range(r.choice([1, 1, 2])):
+        p = r.randrange(npeers)
+        if r.random() < 0.6:
+            # below / at / above the 6 s timer; a PIECE for a voided request may still arrive (PK)
+            ops.append("K:%d" % p)
+            if r.random() < 0.25:
+                ops.append("PK:%d:0" % p)
+            ops.append("A:%d" % r.choice([5, 6, 7, 8, 12, 31]))
+            stats["reissue_choke"] = stats.get("reissue_choke", 0) + 1
+            back = "U:%d" % p
+        else:
+            if r.random() < 0.3:
+                ops.append("PB:%d:0" % p)          # disconnect in the middle of a PIECE
+            ops.append("X:%d" % p)
+            stats["reissue_disconnect"] = stats.get("reissue_disconnect", 0) + 1
+            back = "J:%d:%s U:%d" % (p, "1" * n, p)
+        ops.append("A:%d" % r.choice([1, 8, 31]))
+        for _ in range(r.choice([0, 1, 3])):
+            ops.append("P:%d:0" % r.randrange(npeers))
+        if r.random() < 0.6:
+            ops.append(back)
+            ops.append("A:31")
+    q = r.randrange(npeers)
+    ops.append("PE:%d" % q)
+    ops.append("J:%d:%s" % (q, "1" * n))
+    ops.append("Q:%d" % q)
+    stats["reissue_shape"] = stats.get("reissue_shape", 0) + 1
+    return header(plen, files, "0" * n, r.randrange(1, 1 << 16)) + " | " + " ".join(ops)
+
+
+def count_reissues(out):
+    """Measured on the implementation's trace: blocks whose outstanding request at connection p was voided by p's CHOKE followed by
+    the choke timer (DC:p), or by p's disconnect (X:p), and that were then requested at a DIFFERENT connection."""
+    ev, _, _, _ = parse_trace(out)
+    held, choked, freed_choke, freed_disc = {}, {}, {}, {}
+    n_choke = n_disc = 0
+    for e in (ev or [])[1:]:
+        t = e[0]
+        if t == "J":
+            held[e[1]] = set()
+        elif t == "R":
+            b = (int(e[2]), int(e[3]))
+            held.setdefault(e[1], set()).add(b)
+            if b in freed_choke and freed_choke[b] != e[1]:
+                n_choke += 1
+            if b in freed_disc and freed_disc[b] != e[1]:
+                n_disc += 1
+            freed_choke.pop(b, None)
+            freed_disc.pop(b, None)
+        elif t == "P" or t == "C":
+            held.get(e[1], set()).discard((int(e[2]), int(e[3])))
+        elif t == "K":
+            choked[e[1]] = choked.get(e[1], set()) | held.get(e[1], set())
+            held[e[1]] = set()
+        elif t == "DC":
+            for b in choked.pop(e[1], set()):
+                freed_choke[b] = e[1]
+        elif t == "X":
+            for b in held.pop(e[1], set()) | choked.pop(e[1], set()):
+                freed_disc[b] = e[1]
+        elif t == "F":
+            for d in (freed_choke, freed_disc):
+                for b in [b for b in d if b[0] == int(e[1])]:
+                    del d[b]
+    return n_choke, n_disc
+
+
 def hand_cases():
     H = []
     z10 = "0" * 10
@@ -310,7 +397,11 @@ def gen(seed, tier):
         cases.append(random_case(r, stats, nops=r.choice([20, 40, 80]), slots=True))
     for _ in range(n // 8):
         cases.append(priority_mid_case(r, stats))
-    stats["random"] = n + n // 4 + n // 4 + n // 8
+    # the shape of the reissued_after_* theorems: one holder, voided by CHOKE + 6 s timer or disconnect, re-issued elsewhere
+    nre = 24 if tier == "quick" else 240
+    for _ in range(nre):
+        cases.append(reissue_case(r, stats))
+    stats["random"] = n + n // 4 + n // 4 + n // 8 + nre
     return cases, stats
 
 
